@@ -264,6 +264,10 @@ impl Builder<AllTerms> {
         parent_id: I,
         child_id: J,
     ) -> HpoResult<()> {
+        // check the child first: a failing call must not modify the parent
+        if self.hpo_terms.get(child_id.into()).is_none() {
+            return Err(HpoError::DoesNotExist);
+        }
         let parent = self
             .hpo_terms
             .get_mut(parent_id.into())
